@@ -32,6 +32,6 @@ def run(ctx):
     state.r_accum(ctx)
     common.r_argbind(ctx, {common.solve_root(ctx.repo).name, "generate_problem", "send_constraint_to_solver", "send_lmi_constraint_to_solver", "expression_to_sparse_matrices", "expression_to_matrices"})
     nb = wrappers.r_baridx(ctx)
-    ctx.floor("declared-model containers", nc, 8)
-    ctx.floor("send sites in the solve root", ns, 8)
-    ctx.floor("bar-variable index sites", nb, 6)
+    ctx.floor("declared-model containers", nc, 6)
+    ctx.floor("send sites in the solve root", ns, 5)
+    ctx.floor("bar-variable index sites", nb, 4)
